@@ -105,15 +105,13 @@ MUTANTS = [
     # --- C16
     ("beast_escape_no_skip", "C16", TCP, "                    msg.append(0x1A)\n                    i += 1\n", "                    msg.append(0x1A)\n", 2),
     ("beast_buffer_reset", "C16", TCP, "        self.buffer = self.buffer[start:]\n", "        self.buffer = []\n", 2),
-    ("beast_trailing_esc_as_data", "C16", TCP, "                    # divider or half of an escaped pair, wait for more data\n                    break\n",
-     "                    # divider or half of an escaped pair, wait for more data\n                    msg.append(0x1A)\n", 2),
-    ("beast_df18_not_long", "C16", TCP, "if df in [16, 17, 18, 19, 20, 21, 24] and len(msg) != 28:", "if df in [16, 17, 19, 20, 21, 24] and len(msg) != 28 or df == 18:", 1),
-    ("beast_short_slice", "C16", TCP, "mm[8:15]", "mm[8:14]", 1),
+    ("beast_df18_not_long", "C16", TCP, "if df in [16, 17, 18, 19, 20, 21, 24] and len(msg) != 28:", "if df in [16, 17, 19, 20, 21, 24] and len(msg) != 28 or df == 18:", -1),
+    ("beast_short_slice", "C16", TCP, "mm[8:15]", "mm[8:14]", -1),
     ("raw_state_not_kept", "C16", TCP, "        messages = []\n\n        # current_msg and msg_stop are kept", "        messages = []\n        self.current_msg = \"\"\n\n        # current_msg and msg_stop are kept", 1),
     ("raw_to_beast_dispatch", "C16", TCP, "                elif self.datatype == \"raw\":\n                    messages = self.read_raw_buffer()", "                elif self.datatype == \"raw\":\n                    messages = self.read_beast_buffer()", 1),
     ("skysense_consume_plus1", "C16", TCP, "self.buffer = self.buffer[SS_MSGLENGTH:]", "self.buffer = self.buffer[SS_MSGLENGTH + 1:]", 1),
-    ("skysense_no_lookahead", "C16", TCP, "                self.buffer[i] == SS_STARTCHAR\n                and self.buffer[i + SS_MSGLENGTH] == SS_STARTCHAR\n", "                self.buffer[i] == SS_STARTCHAR\n", 1),
-    ("run_messages_inverted", "C16", TCP, "                if not messages:\n                    continue", "                if messages is None:\n                    continue\n                if len(messages) == 1 and len(self.buffer) > 64:\n                    continue", 1),
+    ("run_drops_big_reads", "C16", TCP, "                if not messages:\n                    continue", "                if not messages or len(messages) > 3:\n                    continue", 1),
+    ("run_again_clears_buffer", "C16", TCP, "            except zmq.error.Again:\n                continue", "            except zmq.error.Again:\n                self.buffer = []\n                continue", 1),
     ("run_keeps_routing_id", "C16", TCP, "self.socket.recv_multipart()[-1]", "b\"\".join(self.socket.recv_multipart())", 1),
     ("netsource_no_reset", "C16", SRC, "            )\n            self.reset_local_buffer()\n", "            )\n", -1),
     ("netsource_len_le_28", "C16", SRC, "if len(msg) < 28:  # only process long messages", "if len(msg) <= 28:  # only process long messages", -1),
@@ -133,10 +131,10 @@ MUTANTS = [
     ("commb_live_backwards", "C17", DEC, "max(self.acs[icao][\"live\"], int(t))", "int(t)", 1),
     ("run_clears_before_processing", "C17", DEC, "                for data in local_buffer:\n", "                pending, local_buffer = local_buffer, []\n                for data in pending[:-1] if len(pending) > 2 else pending:\n", 1),
     ("icao_case_regression", "C17", PYC, "addr = msg[2:8].upper()", "addr = msg[2:8]", 1),
-    ("nucp_table_hole", "C17", UNC, None, None, 0),  # filled in below if the table has the key
+    ("nucp_table_hole", "C17", UNC, "    17: 1,\n    18: 0,\n    20: 9,", "    17: 1,\n    20: 9,", 1),
     ("cprnl_off_by_one_band", "C17", PYC, "    NL = floor(nl)\n    return NL", "    NL = floor(nl)\n    if NL == 37:\n        NL = 36\n    return NL", 1),
     ("airborne_ref_even_dlat", "C17", B05, "d_lat = 360 / 59 if i else 360 / 60", "d_lat = 360 / 59", 1),
-    ("surface_hemisphere_regression", "C17", B06, "        if abs(lat_ref - lat_even_n) <= abs(lat_ref - lat_even_s)\n", "        if lat_ref > 0\n", 1),
+    ("surface_hemisphere_regression", "C17", B06, "        if abs(lat_ref - lat_even_n) <= abs(lat_ref - lat_even_s)\n", "        if lat_ref > 0\n", 1, "        if abs(lat_ref - lat_odd_n) <= abs(lat_ref - lat_odd_s)\n", "        if lat_ref > 0\n"),
     ("surface_lon_unwrapped", "C17", B06, "dls = [abs((lon_ref - lon + 180) % 360 - 180) for lon in lons]", "dls = [abs(lon_ref - lon) for lon in lons]", 1),
     # --- C19
     ("th_amp_diff_03", "C19", RTL, "th_amp_diff = 0.8", "th_amp_diff = 0.3", 1),
@@ -157,19 +155,14 @@ MUTANTS = [
 def _fill_special(src_root):
     out = []
     for mu in MUTANTS:
-        name, prop, f, old, new, cnt = mu
-        if name == "nucp_table_hole":
-            p = os.path.join(src_root, "pyModeS", UNC)
-            s = open(p).read()
-            key = "    9: {"
-            if key in s:
-                out.append((name, prop, f, key, "    99: {", 1))
-            continue
         out.append(mu)
     return out
 
 
 def _apply(src_root, mu):
+    if len(mu) > 6:
+        ok = _apply(src_root, mu[:6])
+        return ok and _apply(src_root, (mu[0], mu[1], mu[2], mu[6], mu[7], 1))
     name, prop, f, old, new, cnt = mu
     p = os.path.join(src_root, "pyModeS", f)
     s = open(p).read()
